@@ -108,7 +108,14 @@ class System:
         w, o = (self.host if tgt == 'host' else self.worlds[tgt % len(self.worlds)]), self.orbit
         kind = op['op']
         a = {k: self.value(v, n) for k, v in op.get('args', {}).items()}
-        if kind == 'w.set_state':
+        if kind == 'o.set_states':
+            sigs = [(self.worlds[t % len(self.worlds)].name if op.get('sig') == 'name' else self.worlds[t % len(self.worlds)])
+                    for t in op['targets']]
+            plural = {'eccentricity': 'eccentricities', 'semi_major_axis': 'semi_major_axes',
+                      'orbital_frequency': 'orbital_frequencies', 'orbital_period': 'orbital_periods'}
+            kw = {plural[k]: [self.value(v, n) for v in vals] for k, vals in op['lists'].items()}
+            o.set_states(sigs, **kw)
+        elif kind == 'w.set_state':
             w.set_state(**a)
         elif kind == 'o.set_state':
             o.set_state(w, **a)
